@@ -186,7 +186,16 @@ def verify_case(ident, case_index):
             if sig in seen:
                 continue
             seen.add(sig)
-            r = solve.discharge(ob.assumptions, ob.goal, ob.inputs)
+            r = None
+            core = getattr(ob, "core", None)
+            if core is not None and len(core) < len(ob.assumptions):
+                # stage 1: the goal may already follow from the path-independent facts (weaker hypotheses suffice)
+                r0 = solve.discharge(core, ob.goal, None, want_model=False, timeout_ms=2000, fallbacks=False)
+                if r0["status"] == "unsat":
+                    r = r0
+                    r["backend"] += " (path-independent)"
+            if r is None:
+                r = solve.discharge(ob.assumptions, ob.goal, ob.inputs)
             rec = dict(ident=ob.ident(), name=ob.name, kind=ob.kind, func=ob.func, line=ob.line,
                        status=r["status"], backend=r["backend"], time_s=round(r["time_s"], 4), model=r.get("model"),
                        meta=ob.meta, tried=r.get("tried"))
@@ -200,7 +209,7 @@ def verify_case(ident, case_index):
                     pass
             out["obligations"].append(rec)
         for nm, assumptions, func, line in run.covers:
-            st = solve.is_sat(assumptions)
+            st = solve.is_sat(assumptions, timeout_ms=2500)
             out["covers"].append(dict(name=nm, func=func, line=line, status=st, outcome=outcome[0]))
     out["trusted"] = sorted(trusted)
     out["trivial"] = eng.trivial
